@@ -346,6 +346,7 @@ func nwScenario(t *tr.W, sc *nwScript) string {
 	r.s.Sched = sc.Sched
 	last := map[string]string{}
 	curOp := map[string]string{}
+	curX := map[string]int{}
 	var resMu sync.Mutex
 	lastRes := map[string]bool{}
 	lastNode := map[string]*skiplist.Node{}
@@ -400,6 +401,14 @@ func nwScenario(t *tr.W, sc *nwScript) string {
 			act("N4", "res", res)
 		case from == "N5":
 			act("N5", "res", res)
+		}
+		if from == "idle" && to == "N1" {
+			curX[p.Name] = r.idOf((*skiplist.Node)(at.A))
+		}
+		if to == "idle" && curOp[p.Name] == "del" && (from == "idle" || from == "N1" || from == "N3" || from == "N4" || from == "N5") {
+			// the API-level fact, independent of the path the call took: which version Delete2 found, and its result
+			t.Emit(tr.Ev{"e": "DelRet", "p": pi, "x": curX[p.Name], "res": res})
+			curX[p.Name] = 0
 		}
 		if to == "idle" {
 			r.mu.Lock()
@@ -497,6 +506,11 @@ func (r *nwRun) post() string {
 	t.Emit(r.obs())
 	n := 0
 	for x, guard := gl, 0; x != nil && guard < 1000; guard++ {
+		if r.isFreed(x) { // following it would crash here, and the collection worker right after: the fact is the verdict
+			t.Emit(tr.Ev{"e": "Fault", "msg": "the garbage list handed to a new snapshot contains a node that was already returned to the allocator"})
+			nwCur.Store((*nwRun)(nil))
+			return ""
+		}
 		n++
 		x = x.GetLink()
 	}
